@@ -241,6 +241,35 @@ func IsValidBucketName(bucket string, debug bool) bool {
 	return true
 }
 
+// IsObjectNameValid reports whether name can be used as an object key (or as
+// a copy source "bucket/key") without being resolved to a different
+// location: no "." or ".." segment, no empty segment except one trailing
+// slash (a directory object), no NUL byte, not absolute.
+func IsObjectNameValid(name string) bool {
+	if name == "" || strings.ContainsRune(name, 0) {
+		return false
+	}
+	segments := strings.Split(name, "/")
+	for i, seg := range segments {
+		switch seg {
+		case ".", "..":
+			return false
+		case "":
+			if i != len(segments)-1 || i == 0 {
+				return false
+			}
+		}
+	}
+	return true
+}
+
+// IsPathComponentValid reports whether id (a bucket name, version id or
+// upload id supplied by the client) is a single path component that names
+// itself: not empty, not "." or "..", without a separator or NUL byte.
+func IsPathComponentValid(id string) bool {
+	return id != "" && id != "." && id != ".." && !strings.ContainsAny(id, "/\x00")
+}
+
 func includeHeader(hdr string, signedHdrs []string) bool {
 	for _, shdr := range signedHdrs {
 		if strings.EqualFold(hdr, shdr) {
